@@ -1,7 +1,9 @@
 //! hv — conformance harness binding the TLA+ specification in /verif/spec to ureq-proto (/repo).
 //! Every subcommand drives the PUBLIC API only and writes one ndjson event per call.
 mod drv_br;
+mod drv_flow;
 mod drv_head;
+mod flowbox;
 mod drv_req;
 mod fx;
 mod drv_bw;
@@ -46,6 +48,9 @@ fn main() {
         "c05" => extra = drv_head::c05(&o, &mut t),
         "c20" => extra = drv_head::c20(&o, &mut t),
         "c06" => extra = drv_head::c06(&o, &mut t),
+        "c09" => extra = drv_flow::c09(&o, &mut t),
+        "c10" => extra = drv_flow::c10(&o, &mut t),
+        "c11" => extra = drv_flow::c11(&o, &mut t),
         "c02" => extra = drv_req::c02(&o, &mut t),
         "c16" => extra = drv_req::c16(&o, &mut t),
         "c17" => extra = drv_req::c17(&o, &mut t),
